@@ -363,10 +363,16 @@ class Session:
         distinct = 0
         rules = []
         exhaustive = bool(self.drivers)
+        seen_runs = set()
         for d in self.drivers:
-            evaluations += d["evaluations"]
-            distinct += d["distinct_nontrivial"]
-            rules.append("%s: %s" % (d["driver"], d["rule"]))
+            key = (d["driver"], d["rule"], d["wall_s"])          # one driver run validated by several trace specs counts once
+            if key not in seen_runs:
+                seen_runs.add(key)
+                evaluations += d["evaluations"]
+                distinct += d["distinct_nontrivial"]
+            r = "%s: %s" % (d["driver"], d["rule"])
+            if r not in rules:
+                rules.append(r)
             exhaustive = exhaustive and bool(d["exhaustive"])
         for m in getattr(self, "_metas", []):
             samples += m.get("samples", [])[:2]
